@@ -569,7 +569,7 @@ class Explorer:
                     callee = short(f['def']) if f['k'] == 'const' and f.get('def') else '?'
                     a = tuple(self.operand(env, x) for x in t['args'])
                     if callee.endswith('as std::ops::Try>::branch'):
-                        val = ('try', a[0])
+                        val = ('try', a[0], 'O' if callee.startswith('<std::option::Option') else 'R')
                         p.events.append(('try', a[0], t.get('line', 0), p.bb))
                     elif callee.endswith('::from_residual'):
                         val = ('residual', a[0])
@@ -674,7 +674,7 @@ class Explorer:
                     p.bb = forks[0][0]
                 elif k in ('goto', 'drop', 'assert'):
                     if k == 'assert':
-                        p.events.append(('assert', t.get('msg', ''), self.operand(env, t['cond'])))
+                        p.events.append(('assert', t.get('msg', ''), self.operand(env, t['cond']), t.get('line', 0), p.bb, len(p.conds)))
                     p.bb = t['target']
                 elif k == 'return':
                     results.append(('RET', p, env.get(0)))
